@@ -40,6 +40,24 @@ let () =
       if complete then Printf.sprintf "up fr=ok body=%s complete=1 arrivals=1 client=200" (digest body) else "up complete=0");
   (* Content-Length: 0 request: no body pipe is created (expectBody = chunked || content_length > 0) *)
   reg "relay.req0" (fun _ -> Printf.sprintf "up fr=ok body=%s complete=1 arrivals=1 client=200" (digest []));
+  (* pipe <n|-> <op>...: the unit-level BodyPipe cases of harness/h_relay.cc *)
+  reg "pipe" (fun (ns :: ops) ->
+      flush stdout;
+      let known = ns <> "-" in
+      let clen = if known then Some (n_of_string ns) else None in
+      let ev_of_op (o : string) : qev list =
+        if String.length o >= 2 && String.sub o 0 2 = "s:" then
+          (let d = bytes_of_hex (String.sub o 2 (String.length o - 2)) in
+           if known then [QSeg d] else (if d = [] then [] else [QSeg (up_chunk d)]))
+        else match o with
+          | "sp" -> [QSpace] | "ab" -> [QAbort] | "nt" -> [QNote] | "g" -> [QGet]
+          | "ef" -> if known then [] else [QSeg last_chunk]
+          | _ -> failwith "op" in
+      let q = rq_run bodypipe_max_capacity (UpLen N0) clen (List.concat (List.map ev_of_op ops)) in
+      Printf.sprintf "put=%s get=%s buf=%s pieces=%d:%s prod=%s whole=%s abort=%s inbuf=%s"
+        (string_of_n q.q_put) (string_of_n q.q_get) (digest q.q_buf) (List.length q.q_pieces)
+        (digest (List.concat q.q_pieces)) (b2s q.q_prod) (b2s q.q_whole) (b2s q.q_abort)
+        (if known then string_of_int (List.length q.q_inbuf) else "-"));
   (* relay.dechunk <hex>: the reference chunked reader *)
   reg "relay.dechunk" (fun [h] ->
       let ((d, out), rest) = crun CSize0 (bytes_of_hex h) in
